@@ -15,4 +15,8 @@ alias source_endowment := endow_src_setup
 /-- a missing `cashAmount` / `assetVolume` and a market listed twice are refused -/
 alias source_endowment_refusals := endow_src_refusals
 
+/-- holdings are read and changed per accessible market only (`get_asset_volume`, `update_asset_volume`,
+`update_cash_amount`) -/
+alias source_holdings_accessors := endow_src_holdings
+
 end Pams.C05
